@@ -59,7 +59,7 @@ func SpecUnpad(p string) string {
 
 //@ func unpadOriginName(paddedOriginName []byte) (res string)
 //@ props C03 C20 C16 C07
-//@ ensures[C07] res == SpecUnpad(string(paddedOriginName))
+//@ ensures[C07 C20] res == SpecUnpad(string(paddedOriginName))
 //@ ensures len(res) <= len(paddedOriginName) && res == string(paddedOriginName[:len(res)])
 //@ ensures forall(len(res), len(paddedOriginName), func(i int) bool { return paddedOriginName[i] == 0 })
 //@ ensures len(res) > 0 ==> res[len(res)-1] != 0
@@ -68,7 +68,7 @@ func SpecUnpad(p string) string {
 //@ loop 0 vars(lastNonZero int)
 //@   invariant -1 <= lastNonZero && lastNonZero < len(paddedOriginName)
 //@   invariant forall(lastNonZero+1, len(paddedOriginName), func(i int) bool { return paddedOriginName[i] == 0 })
-//@   invariant[C07] SpecUnpad(string(paddedOriginName)) == SpecUnpad(string(paddedOriginName[:lastNonZero+1]))
+//@   invariant[C07 C20] SpecUnpad(string(paddedOriginName)) == SpecUnpad(string(paddedOriginName[:lastNonZero+1]))
 //@   decreases lastNonZero + 1
 //@ end
 
